@@ -410,7 +410,7 @@ def check_api(ctx, case):
     from ref import wire
     plan = case['plan']
     try:
-        t = txplan.realise(plan)
+        t = txplan.realise(plan, allow_keyless=bool(case.get('signed', True)))
         if case.get('signed', True):
             txplan.sign_history(t, plan)
         raw = t.raw()
